@@ -7,6 +7,7 @@ import TsVerif.C03.Sound
 import TsVerif.C03.Relate
 import TsVerif.C03.Complete
 import TsVerif.C03.Cover
+import TsVerif.C03.Rename
 import TsVerif.C03.Judge
 /-!
 # C03 — A generated parser recognises exactly its grammar and builds its derivation
@@ -207,6 +208,32 @@ theorem parser_recognises_exactly_its_grammar (g : Grammar) (tbl : Table) (aux :
     exact this
   · intro hd
     exact parser_complete g tbl aux P ann start hcov hok toks (fun a ha => ⟨(htoks a ha).1, (htoks a ha).2.1⟩) hd
+
+/-- `parser_recognises_exactly_its_grammar_up_to_names`: the form the check evaluates.  The names the
+table gives its NON-terminals are immaterial (the driver never reads them, the statement mentions
+only terminal names), and `extract_default_aliases` renames a rule that is aliased at every use; so
+the four validations are evaluated on `renameNT tbl ren` (`ren` found by an untrusted search) and the
+grammar is read through `tokenView` (which whole-rule terminals are tokens: `extract_tokens`'
+absorption rule) — the equivalence holds for the dumped table itself. -/
+theorem parser_recognises_exactly_its_grammar_up_to_names (g : Grammar) (tbl : Table) (ren : List (Nat × String))
+    (aux : AuxMap) (P : List Prod) (ann : Ann) (start : Nat)
+    (hsafe : tableSafe (renameNT tbl ren) = true) (hrel : relOK g (renameNT tbl ren) aux = true)
+    (hcov : coverOK g (renameNT tbl ren) aux P start = true)
+    (hok : completeOK (renameNT tbl ren) P (auxAllow aux) ann start = true)
+    (toks : List Nat) (htoks : ∀ a, a ∈ toks → a < tbl.tokenCount ∧ a ≠ 0 ∧ isExtraSym tbl a = false) :
+    (∃ f pt, runLoop tbl f { stack := [], toks := toks } = .accepted pt) ↔
+      DerivesTok g (.sym g.start) (toks.map (tokOf tbl)) := by
+  constructor
+  · rintro ⟨f, pt, h⟩
+    have := parser_sound_renamed g tbl ren aux hsafe hrel toks (fun a ha => ⟨(htoks a ha).1, (htoks a ha).2.1⟩) pt f h
+    have hf : (toks.filter fun a => !isExtraSym tbl a) = toks := by
+      apply List.filter_eq_self.mpr
+      intro a ha
+      simp [(htoks a ha).2.2]
+    rw [hf] at this
+    exact this
+  · intro hd
+    exact parser_complete_renamed g tbl ren aux P ann start hcov hok toks (fun a ha => ⟨(htoks a ha).1, (htoks a ha).2.1⟩) hd
 
 /-- `glr_yield`: for cells with several actions the model follows every action (`parseAll`); each
 accepting run yields a tree whose leaves are exactly the token string — in particular the tree
